@@ -378,15 +378,36 @@ class Parser:
             yield from s.atom(atom, pos, self_rule, prec)
 
     def rep(s, atom, pos, self_rule, need_one, greedy):
-        if not need_one and not greedy:
+        if greedy:
+            # depth-first, longest first, with an explicit stack: the depth of the Python/C stack does not grow with the
+            # number of repetitions (a script of thousands of statements is one long repetition)
+            acc = []
+            frames = [(iter(s.atom(atom, pos, None, None)), pos)]
+            while frames:
+                it, p = frames[-1]
+                advanced = False
+                for kids, q in it:
+                    if q == p:
+                        continue
+                    acc.append(kids)
+                    frames.append((iter(s.atom(atom, q, None, None)), q))
+                    advanced = True
+                    break
+                if advanced:
+                    continue
+                frames.pop()
+                if acc or not need_one:
+                    yield [k for ks in acc for k in ks], p
+                if acc:
+                    acc.pop()
+            return
+        if not need_one:
             yield [], pos
         for kids, q in s.atom(atom, pos, None, None):
             if q == pos:
                 continue
             for rest, q2 in s.rep(atom, q, None, False, greedy):
                 yield kids + rest, q2
-        if not need_one and greedy:
-            yield [], pos
 
 
 class State:
